@@ -498,4 +498,62 @@ theorem sound_validator_never_rejects (cfg : ApiCfg) (v : Version) (strict : Boo
     rw [hok d (generate_meets_spec cfg v strict none env ops d henv hvalid h)]
     rfl
 
+/-! ### non-vacuity over a non-empty type environment (review C07-2)
+
+`decide` cannot run the well-founded `gen`; the witness is evaluated by rewriting with the evaluation lemmas of
+`Lemmas/OpenAPIEval.lean` (`envW`: two struct types; the operation's response type is the first). -/
+
+def opW : OpIn := { method := s "GET", path := s "/a/:id", summary := s "s", description := [], opID := [], req := none,
+                    resps := [(200, s "OK", some (.named 0))] }
+
+theorem lemma_genResps_W : genResps envW (sortStatuses opW.resps) [] =
+    .ok ([{ code := s "200", description := s "OK", schema := some (refTo (s "dup.I")) }],
+         [(s "dup.I", objNode [] (.cons (s "a") (primSchema .string) .nil))]) := by
+  have hs : sortStatuses opW.resps = [(200, s "OK", some (.named 0))] := by decide
+  rw [hs, genResps]
+  have hc : validResponseCode (itoa 200) = true := by decide
+  simp only [hc, Bool.not_true, Bool.false_eq_true, if_false, ne_eq]
+  rw [envW_first]
+  simp only [genResps]
+  have h1 : itoa 200 = s "200" := by decide
+  have h2 : (if s "OK" = [] then s "Response" else s "OK") = s "OK" := by decide
+  simp [h1, h2]
+
+theorem lemma_buildOperation_W : ∃ o st, buildOperation envW opW [] [] = .ok (o, st, [opIdOf opW]) ∧
+    st = [(s "dup.I", objNode [] (.cons (s "a") (primSchema .string) .nil))] := by
+  unfold buildOperation
+  have hd : ([] : List B).contains (opIdOf opW) = false := by decide
+  have hdoc : opW.hasDoc = true := by decide
+  have hreq : opW.req.bind (introspect envW) = none := by decide
+  simp only [hd, hdoc, Bool.false_eq_true, if_false, Bool.not_true, hreq, opParams, opBody]
+  have hst : ((extractPathParams opW.path).all fun p => styleOK p.loc p.style) = true := by decide
+  simp only [hst, Bool.not_true, Bool.false_eq_true, if_false, lemma_genResps_W]
+  exact ⟨_, _, rfl, rfl⟩
+
+theorem lemma_generate_W : ∃ d, generate {} .v30 false none envW [opW] = .ok d := by
+  obtain ⟨o, st, hb, _⟩ := lemma_buildOperation_W
+  have hg : sortByKey (groupByPath [opW]) = [(s "/a/{id}", [opW])] := by rfl
+  have hm : methodMember opW.method = some (s "get") := by decide
+  unfold generate build buildFromGroups
+  rw [hg]
+  simp only [buildGroups, buildGroup, hb, hm]
+  unfold project
+  simp
+
+/-- hypotheses of `generate_meets_spec` met over a non-empty environment with struct fields, `Generate` returns a
+    document, and the whole oracle holds on it -/
+theorem nonempty_env_witness :
+    EnvNamed envW ∧ (∀ op ∈ [opW], validatePath op.path = true) ∧
+    ∃ d, generate {} .v30 false none envW [opW] = .ok d ∧ docOK .v30 [opW] d = true := by
+  have henv : EnvNamed envW := by
+    intro e he n p fs hdef f hf m t hft
+    simp only [envW, List.mem_cons, List.not_mem_nil, or_false] at he
+    rcases he with rfl | rfl <;> simp only [Def.struct.injEq] at hdef <;> obtain ⟨_, _, rfl⟩ := hdef <;>
+      simp only [List.mem_singleton] at hf <;> subst hf <;> simp only [Field.field.injEq] at hft <;>
+      obtain ⟨rfl, _⟩ := hft <;> decide
+  have hv : ∀ op ∈ [opW], validatePath op.path = true := by
+    intro op hop; simp only [List.mem_singleton] at hop; subst hop; decide
+  obtain ⟨d, hd⟩ := lemma_generate_W
+  exact ⟨henv, hv, d, hd, generate_meets_spec {} .v30 false none envW [opW] d henv hv hd⟩
+
 end Rivaas.C07
